@@ -50,6 +50,11 @@ def frames_for(setname):
         plain(1, 3, 3, 3, 7, minW=0)                      # operator grammars for C05: E -> ... over 3 terms
         plain(2, 3, 3, 3, 5)
         custom(2, 2, 1, 3, 3); custom(2, 2, 2, 3, 4); custom(2, 2, 2, 2, 3, err=True)
+        plain(2, 2, 5, 1, 4); plain(2, 2, 6, 1, 3)        # many short rules: rule order / sorting / slices beyond 4 rules
+        # textbook shapes as seeds (with their single-symbol neighbourhoods): LR(1)-but-not-LALR(1), kernel-subset, expression grammar in every rule order
+        seed(3, 3, (3, 3, 3, 3, 1, 1), ()); seed(3, 3, (1, 1, 3, 3, 3, 3), ()); seed(2, 3, (2, 3, 2, 1), ()); seed(2, 3, (1, 2, 3, 2), ())
+        for v in sorted(set(itertools.permutations((3, 1, 3, 1)))): seed(2, 4, v, ())
+        seed(3, 3, (2, 2, 2, 2, 2, 2), ())
     if setname == 'thorough':
         custom(2, 2, 3, 3, 4); custom(2, 3, 2, 3, 4); custom(2, 2, 2, 3, 4, err=True)
         plain(3, 2, 3, 3, 6); plain(3, 2, 4, 2, 5)
